@@ -78,3 +78,18 @@ chk("C19",
     "Trusted: matching()/partition reference in props/c19.py. One open known finding (array patterns with wildcard bits above the mask's top set bit), attributed only when the observed bins equal the exact predicted deviation.",
     "exhaustive pattern x sample-value table against a reference matcher",
     "DESIGN.md section 3 C19")
+chk("C11",
+    "All crosses of 2..3 coverpoints over 7 bin layouts (single bins, arrays, array behind a single bin and vice versa, partial coverage, counted arrays, auto-bins) x iff on the cross and each coverpoint (field/lambda): every single sample (all value tuples x all iff tuples) from a fresh covergroup, and all sample sequences of length<=3 over a menu with miss-all and gated-off samples. Oracle: cross bins = row-major product of the coverpoints' bins, named after them; exactly the bin of the hit combination +1 iff all conditions hold.",
+    "Trusted: expected() in props/c11.py and the C10 partitioner. Overlapping coverpoint bins are outside the alphabet (the statement defines no single combination then).",
+    "exhaustive single-sample table and bounded sample sequences against a reference counter",
+    "DESIGN.md section 3 C11")
+chk("C12",
+    "Explicit-state BFS (depth 5 quick / 6 thorough) over histories {create instance of shape s, sample instance i with one of 3 value tuples} for 9 covergroup configurations (crosses, at_least 1/2 at coverpoint and covergroup level, weights 1/3, ignore/illegal, enum, mixed arrays), up to 3 instances. At every state: instance hit vectors = own samples; type hits = bin-wise sum per shape; shapes form separate types; coverage = weighted share of bins with hits >= at_least, within 0..100, non-decreasing along every edge, 100 iff all covered.",
+    "Trusted: reference counters in props/c12.py. coverpoint.get_coverage() (type level per coverpoint) is not judged: the statement defines type coverage for covergroups.",
+    "explicit-state BFS over sample histories with reference counters and a monotonicity invariant on every edge",
+    "DESIGN.md section 3 C12")
+chk("C13",
+    "The C12 population BFS (depth 5 / 6, 9 configurations incl. ignore/illegal bins, arrays, crosses, enum, trimmed auto-bins); at EVERY expanded state get_coverage_report_model(), get_coverage_report(details=True) (parsed) and write_coverage_db() re-read with PyUCIS are compared as structures type -> items -> (bin kind, name, count) with the in-memory models; percentages compared with get_coverage()/get_inst_coverage(); the state key must be identical before and after every reporting call.",
+    "Trusted: text parser in props/c13.py; PyUCIS is part of the system under test as used by vsc. Type/instance names are compared by typename and by content (instances as multisets).",
+    "explicit-state BFS with a differential oracle between four representations at every state",
+    "DESIGN.md section 3 C13")
